@@ -228,6 +228,33 @@ pub fn cases(tier: &str, seed: u64, focus: &str) -> Vec<EncCase> {
         push_cfgs(&mut out, &mut rng, &g, "pairs", &s, 1, focus);
     }
 
+    // three runs of different classes, and a run followed by a digit run of every length (look-ahead thresholds)
+    let ntrip = if thorough { 8000 } else { 1500 };
+    for _ in 0..ntrip {
+        let mut s = Vec::new();
+        for _ in 0..3 {
+            let c = *rng.pick(&CLASSES);
+            let n = rng.range(1, 12);
+            s.extend(class_string(&mut rng, c, n));
+        }
+        push_cfgs(&mut out, &mut rng, &g, "triples", &s, 1, focus);
+    }
+    for class in [Class::Upper, Class::Lower, Class::LowerSpace, Class::UpperDigit, Class::X12, Class::EdifactPunct, Class::Mixed] {
+        for pre in [0usize, 1, 2, 3, 5, 8, 9, 12] {
+            for d in 1..=14usize {
+                let reps = if thorough { 3 } else { 1 };
+                for _ in 0..reps {
+                    let mut s = class_string(&mut rng, class, pre);
+                    s.extend(class_string(&mut rng, Class::Digits, d));
+                    if rng.chance(1, 2) {
+                        s.extend_from_slice(*rng.pick(&[&b"/A"[..], b"a", b" ", b"\x80", b"AB", b"!"]));
+                    }
+                    push_cfgs(&mut out, &mut rng, &g, "digitRuns", &s, 1, focus);
+                }
+            }
+        }
+    }
+
     // (3) random strings, lengths log-uniform up to beyond the maximum
     let nrand = if thorough { 6000 } else { 900 };
     for _ in 0..nrand {
